@@ -670,7 +670,8 @@ func (d *fakeDB) GetTrialObservationLog(t *trialsv1beta1.Trial) (*api_pb.GetObse
 		return nil, errors.New("db manager unavailable")
 	}
 	v := d.s.ctl["trial"].view
-	rep := &api_pb.GetObservationLogReply{ObservationLog: &api_pb.ObservationLog{}}
+	// like managerclient.DefaultClient: an empty log is an empty, non-nil list
+	rep := &api_pb.GetObservationLogReply{ObservationLog: &api_pb.ObservationLog{MetricLogs: []*api_pb.MetricLog{}}}
 	src := d.s.db
 	if v != nil {
 		src = v.db
@@ -988,6 +989,15 @@ func (s *Sim) StaleCompletedExp() bool {
 		return false
 	}
 	return s.cacheExp.IsCompleted() && !e.IsCompleted()
+}
+
+// StaleSug: the suggestion cache is behind the stored suggestion.
+func (s *Sim) StaleSug() bool {
+	g := &suggestionsv1beta1.Suggestion{}
+	if s.cacheSug == nil || s.store.Get(ctx, types.NamespacedName{Name: ExpName, Namespace: NS}, g) != nil {
+		return false
+	}
+	return g.ResourceVersion != s.cacheSug.ResourceVersion
 }
 
 // StaleRunningExp: the stored experiment carries a verdict which the experiment cache has not seen yet.
